@@ -1,4 +1,5 @@
 import ClusterVerif.Lemmas.C05
+import ClusterVerif.Lemmas.C05R
 import ClusterVerif.Model.C05Source
 import ClusterVerif.Gen.C05
 
@@ -252,6 +253,175 @@ example :
     let s := run k06Cfg init [.track (k06Pin .recursive), .deqPin, .track { cid := 1, kind := .here, mode := .direct, tag := 1 }]
     (track k06Cfg s { cid := 2, kind := .here, mode := .direct, tag := 1 }).2 = .full ∧
     statusOf (track k06Cfg s { cid := 2, kind := .here, mode := .direct, tag := 1 }).1 2 = .pinError := by
+  decide
+
+/-! ### round 7: recover from the status listing (`Model/C05R.lean`)
+
+`RecoverAll` = `StatusAll(ctx, TrackerStatusUndefined)`, then `recoverWithPinInfo` for every entry with the status READ AT
+LISTING TIME (`raLoop`: worker / daemon activity `pre` goes on between the entries), `Recover(c)` = the table entry, else
+`Status(c)`, then the same switch. `recAction` is that switch as a function of the status; the theorems quantify over the
+status the listing produces, not over sampled states. `ls = false`: the daemon's reads (`PinLsCid` / `PinLs`) fail. -/
+
+/-- the switch, enumerated over all thirteen statuses: exactly pin_error and unexpectedly_unpinned re-pin, exactly unpin_error
+    re-unpins, everything else (cluster_error included) is left -/
+theorem recover_switch_table :
+    (∀ st, recAction st = some .pin ↔ (st = .pinError ∨ st = .unexpectedlyUnpinned)) ∧
+    (∀ st, recAction st = some .unpin ↔ st = .unpinError) ∧ (∀ st, recAction st ≠ some .remote) := by
+  refine ⟨?_, ?_, ?_⟩ <;> intro st <;> cases st <;> simp [recAction]
+
+/-- with the daemon answering, the refined `Recover(c)` is the `recover c` step of the base model -/
+theorem recoverR_refines (cfg : Cfg) (s : State) (c : Nat) : recoverR cfg s true c = recover cfg s c := recoverR_true cfg s c
+
+/-- The refined `RecoverAll` (listing snapshot, loop with worker / daemon activity in between) preserves the invariant. -/
+theorem recoverAllR_invariant (cfg : Cfg) (s : State) (ls : Bool) (items : List (List Ev × Nat)) (hr : Reachable cfg s)
+    (hint : ∀ it ∈ items, ∀ e ∈ it.1, internalOnly e = true) : Inv (recoverAllR cfg s ls items).1 :=
+  inv_raLoop cfg _ items s (inv_reachable hr) (fun _ _ hl => listingR_sound (inv_reachable hr) hl) hint
+
+/-- A cid that is in trouble is listed with a status that calls for the right repair: no live operation (none, or an
+    errored one) and the daemon does not match ⇒ the listing has an entry whose switch re-issues the operation the pinset
+    calls for. -/
+theorem mismatch_is_listed (cfg : Cfg) (s : State) (c : Nat) (hr : Reachable cfg s) (hsl : StartLike s c)
+    (hm : daemonMatches (observe s) c = false) :
+    ∃ st t, listingR s true c = some st ∧ recAction st = some t ∧ wantTyp (s.shared c) t := by
+  have h := inv_reachable hr
+  by_cases hna : ∀ st, statusAllOf s c = some st → recAction st = none
+  · exfalso
+    have hh := healed_of_noaction h hsl hna
+    rcases hsl with hcur | ⟨i, hcur, hp⟩
+    · have hidle := h.idle c hcur
+      unfold idleOk at hidle
+      unfold daemonMatches daemonMode observe at hm
+      simp only [] at hm
+      cases hsh : s.shared c with
+      | none => rw [hsh] at hidle hm; simp [hidle] at hm
+      | some p =>
+        rw [hsh] at hidle hm; simp only [] at hidle hm
+        cases hk : p.kind with
+        | sharded => simp [hk] at hm
+        | remote =>
+          rcases hidle hk with hd | hf
+          · simp [hk, hd] at hm
+          · simp [hk, hf] at hm
+        | here => obtain ⟨t, ht⟩ := hh.idle hcur p hsh hk; simp [hk, ht] at hm
+    · have ht : (s.ops i).typ = .remote := by
+        rcases hh.noErr i hcur with ht | hne
+        · exact ht
+        · exact absurd hp hne
+      have hw := h.curTyp c i hcur
+      have hf := h.remoteErr c i hcur ht hp
+      rw [ht] at hw
+      unfold wantTyp at hw
+      unfold daemonMatches daemonMode observe at hm
+      simp only [] at hm
+      cases hsh : s.shared c with
+      | none => rw [hsh] at hw; cases hw
+      | some p =>
+        rw [hsh] at hw hm; simp only [] at hw hm
+        cases hk : p.kind with
+        | sharded => simp [hk] at hm
+        | remote => simp [hk, hf] at hm
+        | here => rw [hk] at hw; cases hw
+  · simp only [not_forall] at hna
+    obtain ⟨st, hst, hne⟩ := hna
+    cases ha : recAction st with
+    | none => exact absurd ha hne
+    | some t => exact ⟨st, t, hst, ha, statusAllOf_sound h hst t ha⟩
+
+/-- `RecoverAll` covers the listing: every listed cid whose status calls for a repair — for EVERY status the listing can
+    produce, by `recAction` — gets a new operation (a fresh id `j`) for that cid, of the right type, a re-pin carrying the
+    pin recorded in the shared pinset; whatever the workers and the daemon do between the entries, in whatever order the
+    entries are visited, as long as no entry is refused with ErrFullQueue. -/
+theorem recoverAll_covers (cfg : Cfg) (s : State) (items : List (List Ev × Nat)) (hr : Reachable cfg s)
+    (hint : ∀ it ∈ items, ∀ e ∈ it.1, internalOnly e = true) (hnd : (items.map (·.2)).Nodup)
+    (c : Nat) (hc : c ∈ items.map (·.2)) (st : Status) (t : OpType) (hst : listingR s true c = some st)
+    (hact : recAction st = some t) (hnil : (recoverAllR cfg s true items).2 = .nil) :
+    ∃ j, s.nextId ≤ j ∧ j < (recoverAllR cfg s true items).1.nextId ∧ ((recoverAllR cfg s true items).1.ops j).cid = c ∧
+      ((recoverAllR cfg s true items).1.ops j).typ = t ∧
+      (t = .pin → s.shared c = some ((recoverAllR cfg s true items).1.ops j).pin) :=
+  raLoop_covers cfg _ c st t hst hact items s (inv_reachable hr) (fun _ _ hl => listingR_sound (inv_reachable hr) hl)
+    hint hnd hc (startLike_of_action hst hact) hnil
+
+/-- ... and leaves the healthy ones alone: a cid without a table entry whose daemon state matches has a status (read with
+    or without the daemon answering) for which the switch does nothing, so neither `Recover(c)` nor its entry in the loop
+    of `RecoverAll` — executed in whatever later state `s1` — creates an operation. -/
+theorem recover_skips_healthy (cfg : Cfg) (s : State) (ls : Bool) (c : Nat) (hcur : s.cur c = none)
+    (hm : daemonMatches (observe s) c = true) :
+    recoverR cfg s ls c = (s, .nil) ∧ ∀ st, listingR s ls c = some st → ∀ s1, recoverWith cfg s1 c st = (s1, .nil) := by
+  obtain ⟨h1, h2⟩ := noaction_of_healthy hcur hm ls
+  refine ⟨?_, fun st hl s1 => ?_⟩
+  · unfold recoverR; rw [recoverWith_eq, h1]
+  · rw [recoverWith_eq, h2 st hl]
+
+/-- `recover_heals` over the refined step: from a reachable quiescent state, `RecoverAll` as the code runs it (listing with
+    the daemon answering, entries visited in any order `items` that contains every listed cid, worker steps and successful
+    daemon calls in between, no ErrFullQueue), then any healthy activity `es` up to a quiescent state: the daemon matches
+    for every cid. -/
+theorem recoverAllR_heals (cfg : Cfg) (n : Nat) (s s' : State) (items : List (List Ev × Nat)) (es : List Ev)
+    (hr : Reachable cfg s) (hq : quiescent n (observe s) = true)
+    (hint : ∀ it ∈ items, ∀ e ∈ it.1, healthyInternal e = true)
+    (hall : ∀ c, c < n → (listingR s true c).isSome → c ∈ items.map (·.2))
+    (hnil : (recoverAllR cfg s true items).2 = .nil)
+    (hes : ∀ e ∈ es, healthyEv e = true) (hrun : runOk cfg (recoverAllR cfg s true items).1 es = some s')
+    (hq' : quiescent n (observe s') = true) : ∀ c, c < n → daemonMatches (observe s') c = true := by
+  have hi := inv_reachable hr
+  obtain ⟨g1, g2⟩ := raLoop_heals cfg n (listingR s true) items s hi (fun _ _ hl => listingR_sound hi hl) hint
+    (fun c hc => by
+      have hsl := startLike_of_quiescent hi hq c hc
+      by_cases hna : ∀ st, statusAllOf s c = some st → recAction st = none
+      · exact Or.inl (healed_of_noaction hi hsl hna)
+      · simp only [not_forall] at hna
+        obtain ⟨st, hst, hne⟩ := hna
+        cases ha : recAction st with
+        | none => exact absurd ha hne
+        | some t => exact Or.inr ⟨hsl, hall c hc (by rw [listingR_true, hst]; rfl), st, t, hst, ha⟩) hnil
+  obtain ⟨k1, _, k3⟩ := heal_run cfg n es _ s' g1 (fun c hc => Or.inl (g2 c hc)) hes hrun
+  exact fun c hc => matches_of_healed_quiescent k1 hq' c hc (k3 c hc (Or.inl (g2 c hc)))
+
+/-- `lsErr`, single cid: when `PinLsCid` fails, `Status` of a pin allocated here that has no table entry is cluster_error —
+    an error status — and `Recover(c)` leaves it alone (returns nil, creates nothing); a cid WITH a table entry is recovered
+    as usual (`GetExists` needs no daemon read). -/
+theorem recover_lsErr (cfg : Cfg) (s : State) (c : Nat) :
+    (∀ p, s.cur c = none → s.shared c = some p → p.kind = .here →
+      statusR s false c = .clusterError ∧ isError (statusR s false c) = true ∧ recoverR cfg s false c = (s, .nil)) ∧
+    (∀ i, s.cur c = some i → recoverR cfg s false c = recover cfg s c) := by
+  refine ⟨fun p hcur hsh hk => ?_, fun i hcur => ?_⟩
+  · have h1 : statusR s false c = .clusterError := by unfold statusR; rw [hcur, hsh]; simp [hk]
+    refine ⟨h1, by rw [h1]; rfl, ?_⟩
+    unfold recoverR; rw [h1]; rfl
+  · unfold recoverR recover statusR statusOf; rw [hcur]
+
+/-- `lsErr`, `RecoverAll`: when `PinLs` fails the listing is empty (`StatusAll` returns nil) — not even the errored
+    operations of the table are listed — so nothing is recovered: the state after it is the one the workers and the daemon
+    produce on their own. (The unchanged code returned nil here; see notes/C05.md, `fixed:`.) -/
+theorem recoverAll_lsErr (cfg : Cfg) (s : State) (items : List (List Ev × Nat)) :
+    recoverAllR cfg s false items = (items.foldl (fun s it => run cfg s it.1) s, .nil) := by
+  unfold recoverAllR
+  have : listingR s false = fun _ => none := by funext c; rfl
+  rw [this]; exact raLoop_unlisted cfg items s
+
+/-- ... and a later round with the daemon answering heals: a failed round only lets workers and daemon run, so it ends in a
+    reachable state, and from its next quiescent point `recoverAllR_heals` applies. -/
+theorem lsErr_round_reachable (cfg : Cfg) (s : State) (items : List (List Ev × Nat)) (hr : Reachable cfg s) :
+    Reachable cfg (recoverAllR cfg s false items).1 := by
+  rw [recoverAll_lsErr]
+  simp only []
+  induction items generalizing s with
+  | nil => exact hr
+  | cons it rest ih =>
+    simp only [List.foldl_cons]
+    apply ih
+    generalize it.1 = es
+    induction es generalizing s with
+    | nil => exact hr
+    | cons e es ih2 => exact ih2 (step cfg s e) (.step e hr)
+
+/-- a concrete lsErr round and its repair: cid 0 errored (daemon failed the pin), `RecoverAll` with `PinLs` failing does
+    nothing, `RecoverAll` with the daemon answering re-queues the recorded pin and the daemon ends matching -/
+example :
+    let s0 := run k06Cfg init [.track (k06Pin .direct), .deqPin, .retErr 0]
+    statusOf s0 0 = .pinError ∧ (recoverAllR k06Cfg s0 false [([], 0)]).1.nextId = s0.nextId ∧
+    (let s1 := run k06Cfg (recoverAllR k06Cfg s0 true [([], 0)]).1 [.deqPin, .effect 1, .retOk 1]
+     quiescent 1 (observe s1) = true ∧ daemonMatches (observe s1) 0 = true) := by
   decide
 
 /-! ### The anchored functions still read as the model was transcribed (regenerated from /repo on every run) -/
